@@ -125,7 +125,12 @@ def chain_source(prog, exc):
         else:
             lines += ["", "def rec%d(n=1):" % idx, "    if n:", "        return rec%d(0)" % idx, "    return %s()" % nxt, "%s = rec%d" % (name, idx)]
         nxt = name
-    lines += ["", "def entry():", "    return %s()" % nxt, ""]
+    # (blanks at the end of a source line are not part of what a traceback shows: the entry line carries some, and so
+    # does the raise line of every other exception kind)
+    lines += ["", "def entry():", "    return %s()  \t " % nxt, ""]
+    if exc % 2 == 0:
+        i_r = lines.index("def raiser():") + 1
+        lines[i_r] = lines[i_r] + " \t"
     return "\n".join(lines)
 
 
